@@ -431,6 +431,59 @@ func c10Pattern(r *Rand, n int) []byte {
 	return b
 }
 
+// c10WriteBamLens writes one record per entry of lens (its sequence length) through bam.Writer.
+// The content is compressible, so the stream is small although the records are not.
+func c10WriteBamLens(r *Rand, lens []int) ([]byte, error) {
+	var buf bytes.Buffer
+	var err error
+	o := guardTimeout(c10CallTimeout, func() {
+		var ref *sam.Reference
+		ref, err = sam.NewReference("chr1", "", "", 1<<28, nil, nil)
+		if err != nil {
+			return
+		}
+		var h *sam.Header
+		h, err = sam.NewHeader(nil, []*sam.Reference{ref})
+		if err != nil {
+			return
+		}
+		var w *bam.Writer
+		w, err = bam.NewWriter(&buf, h, 1)
+		if err != nil {
+			return
+		}
+		unit := make([]byte, 37+r.intn(20))
+		for j := range unit {
+			unit[j] = "ACGT"[r.intn(4)]
+		}
+		for i, n := range lens {
+			seq := make([]byte, n)
+			qual := make([]byte, n)
+			for j := range seq {
+				seq[j] = unit[(j+i)%len(unit)]
+				qual[j] = byte(20 + (j/64+i)%20)
+			}
+			var rec *sam.Record
+			rec, err = sam.NewRecord(fmt.Sprintf("long%03d", i), ref, nil, 1000*i, -1, 0, 30,
+				sam.Cigar{sam.NewCigarOp(sam.CigarMatch, n)}, seq, qual, nil)
+			if err != nil {
+				return
+			}
+			if err = w.Write(rec); err != nil {
+				return
+			}
+		}
+		err = w.Close()
+	})
+	if o.timedOut {
+		return nil, fmt.Errorf("bam.Writer hangs")
+	}
+	if o.panicked {
+		return nil, fmt.Errorf("bam.Writer panics: %s", o.panicVal)
+	}
+	return buf.Bytes(), err
+}
+
 // c10Reblock re-writes the data of a stream through bgzf.Writer with block boundaries at the given
 // data offsets (ascending).
 func c10Reblock(data []byte, cuts []int, level int) ([]byte, error) {
@@ -708,11 +761,33 @@ func c10JudgeTrunc(st *c10Stream, k, rd int, o c10Obs) (string, string) {
 			return "trunc.bam.clean-eof-inside-member", fmt.Sprintf("cut %d is %s: %d records, then a clean io.EOF", k, c10Where(st, k), len(o.recs)-1)
 		}
 		if !st.recEnds[dlen] {
-			return "trunc.bam.clean-eof-inside-record", fmt.Sprintf("cut %d is a block boundary with %d data bytes before it, which is inside a record (or the header): %d records, then a clean io.EOF",
+			sig := "trunc.bam.clean-eof-inside-record"
+			if n := c10RecordAt(st, dlen); n > 4096 {
+				// bam.Reader reads records that do not fit its 4 KiB inline buffer on a path of its own
+				sig += ".record>4KiB"
+			}
+			return sig, fmt.Sprintf("cut %d is a block boundary with %d data bytes before it, which is inside a record (or the header): %d records, then a clean io.EOF",
 				k, dlen, len(o.recs)-1)
 		}
 	}
 	return "", ""
+}
+
+// c10RecordAt: block_size of the record that data offset d lies inside (0 if d is in the header).
+func c10RecordAt(st *c10Stream, d int) int {
+	prev, next := -1, -1
+	for e := range st.recEnds {
+		if e <= d && e > prev {
+			prev = e
+		}
+		if e > d && (next < 0 || e < next) {
+			next = e
+		}
+	}
+	if prev < 0 || next < 0 {
+		return 0
+	}
+	return next - prev - 4
 }
 
 func c10PayloadSizes(st *c10Stream) string {
@@ -1283,7 +1358,7 @@ func c10EdgeStreams(c *ctx) []*c10Stream {
 func checkC10(c *ctx) {
 	r := c.res
 	r.Exhaustive = true
-	r.Rule = "streams: closed BGZF/BAM streams written by bgzf.Writer / bam.Writer (one block; two blocks + empty block; stored blocks; a stream whose members carry user Extra, Name and Comment; BAM as written; the same BAM data re-blocked so that block boundaries fall inside the header, inside and right after a record length prefix, inside a record and at a record end); hand-framed streams around the block capacity (one block of 65535/65536/65537/65538 payload bytes, and blocks of two gzip members holding 65536+1, 65537+0, 65535+1 bytes: every truncation, sampled substitutions of the big block's header/trailer bytes, and the intact stream, which must fail or read back completely). " +
+	r.Rule = "streams: closed BGZF/BAM streams written by bgzf.Writer / bam.Writer (one block; two blocks + empty block; stored blocks; a stream whose members carry user Extra, Name and Comment; BAM as written; the same BAM data re-blocked so that block boundaries fall inside the header, inside and right after a record length prefix, inside a record and at a record end); hand-framed streams around the block capacity (one block of 65535/65536/65537/65538 payload bytes, and blocks of two gzip members holding 65536+1, 65537+0, 65535+1 bytes: every truncation, sampled substitutions of the big block's header/trailer bytes, and the intact stream, which must fail or read back completely); two BAM streams with records of 5-26 KiB and > 64 KiB (larger than bam.Reader's 4 KiB inline buffer, crossing block boundaries), as bam.Writer lays them out and with every block filled completely: cuts at and around every member boundary, oracle only. " +
 		"Cases: EVERY truncation length 0..len-1 and EVERY (position, value != original) single-byte substitution (thorough: larger streams, all values on header/trailer bytes, 24 sampled values on deflate bytes), each for rd in {1,3}, read with Read chunk sizes 1 (ReadByte), 3, 64, 4096. " +
 		"Every case is non-trivial (the input differs from the intact stream); distinct = distinct (stream, cut | position, value, rd). " +
 		"Oracle (implementation only): output must be a prefix of the original data/records; clean io.EOF only at a member boundary (BAM: that is also a record boundary); HasEOF false on every truncation; substitution: error, or exactly the original output. " +
@@ -1375,9 +1450,115 @@ func checkC10(c *ctx) {
 		c10Enumerate(c, st, vals)
 		r.note("%s (bgzf, hand-framed): %d bytes, block payloads %s: enumerated in %.1fs", st.name, len(st.raw), c10PayloadSizes(st), time.Since(t0).Seconds())
 	}
+	c10LongRecordBam(c)
 	if c.thorough() {
 		c10BigBam(c)
 	}
+}
+
+// c10BoundaryCuts: truncations of a (large) BAM stream at and around every member boundary, rd 1 and 3.
+// Oracle only (no model line: it would carry every block's payload).
+func c10BoundaryCuts(c *ctx, st *c10Stream) int {
+	r := c.res
+	hexRaw := hexs(st.raw)
+	var cuts []int
+	for b := range st.bounds {
+		for _, dlt := range []int{-1, 0, 1, 17, 18, 19, 28} {
+			if k := b + dlt; k >= 0 && k < len(st.raw) {
+				cuts = append(cuts, k)
+			}
+		}
+	}
+	sort.Ints(cuts)
+	for _, k := range cuts {
+		var first c10Obs
+		for i, rd := range c10Rds {
+			o := c10RunCase(st, st.raw[:k], rd, 4096, i, &first)
+			if o.skip {
+				continue
+			}
+			r.eval(fmt.Sprintf("%s/t/%d/%d", st.name, k, rd), true)
+			dlen, atBound := st.bounds[k]
+			cls := "inside-member"
+			if atBound {
+				cls = "member-boundary.inside-header"
+				if st.recEnds[dlen] {
+					cls = "member-boundary.record-boundary"
+				} else if n := c10RecordAt(st, dlen); n > 4096 {
+					cls = "member-boundary.inside-record>4KiB"
+				} else if n > 0 {
+					cls = "member-boundary.inside-record<=4KiB"
+				}
+			}
+			r.hist("trunc." + st.name + "." + cls)
+			if sig, what := c10JudgeTrunc(st, k, rd, o); sig != "" {
+				r.fail(sig, fmt.Sprintf("%s rd=%d: %s", st.name, rd, what), c10Input{Kind: "trunc", Layer: "bam", Name: st.name, Stream: hexRaw, Cut: k, Rd: rd, Chunk: 4096})
+			}
+		}
+	}
+	return len(cuts)
+}
+
+// c10LongRecordBam: BAM streams whose records do not fit bam.Reader's 4 KiB inline buffer and cross BGZF
+// block boundaries.  (a) as bam.Writer lays them out: bgzf.Writer keeps a record inside one block whenever
+// it fits, so only records larger than a block (> 0xff00 bytes) cross a boundary; (b) the same data with
+// every block filled completely (one bgzf.Writer.Write of all of it, the htslib layout), where records of
+// 5-30 KiB straddle the boundaries.  Cuts at and around every member boundary.
+func c10LongRecordBam(c *ctx) {
+	r := c.res
+	rnd := c.rnd.fork()
+	var lens []int
+	for i := 0; i < 16; i++ {
+		n := 100 + rnd.intn(100)
+		switch {
+		case i%8 == 3:
+			n = 45000 + rnd.intn(10000) // record larger than a block
+		case i%2 == 1:
+			n = 3500 + rnd.intn(14000) // record of 5-26 KiB
+		}
+		lens = append(lens, n)
+	}
+	t0 := time.Now()
+	raw, err := c10WriteBamLens(rnd, lens)
+	var sts []*c10Stream
+	if err == nil {
+		var st *c10Stream
+		st, err = c10Describe("bam-long-records", "bam", raw)
+		if err == nil {
+			sts = append(sts, st)
+			var full []byte
+			full, err = c10Reblock(st.data, nil, gzip.DefaultCompression)
+			if err == nil {
+				var st2 *c10Stream
+				st2, err = c10Describe("bam-long-records-full-blocks", "bam", full)
+				if err == nil {
+					sts = append(sts, st2)
+				}
+			}
+		}
+	}
+	if err != nil {
+		r.note("long-record BAM not built: %v", err)
+		r.fail("c10.writer.bam-long-records", "long-record BAM stream not built or not readable: "+err.Error(), c10Input{Kind: "build", Name: "bam-long-records"})
+	}
+	total := 0
+	for _, st := range sts {
+		n := c10BoundaryCuts(c, st)
+		inside := 0
+		for b, d := range st.bounds {
+			if b < len(st.raw) && !st.recEnds[d] && c10RecordAt(st, d) > 4096 {
+				inside++
+			}
+		}
+		r.note("%s (bam, oracle only): %d bytes, %d members, %d records (block payloads %s), %d member boundaries inside a record > 4 KiB, %d cuts",
+			st.name, len(st.raw), len(st.members), len(st.recs)-1, c10PayloadSizes(st), inside, n)
+		total += inside
+	}
+	if err == nil && total == 0 {
+		// cannot happen: a record larger than a block crosses a boundary of the bam.Writer layout
+		r.fail("c10.generator.no-boundary-inside-large-record", "no member boundary of the long-record streams falls inside a record > 4 KiB", c10Input{Kind: "build", Name: "bam-long-records"})
+	}
+	r.note("long-record BAM streams: %.1fs", time.Since(t0).Seconds())
 }
 
 // c10BigBam: a BAM file with full-size (64 KiB) blocks as bam.Writer produces them, records spanning
@@ -1397,29 +1578,7 @@ func c10BigBam(c *ctx) {
 		return
 	}
 	hexRaw := hexs(raw)
-	var cuts []int
-	for b := range st.bounds {
-		for _, dlt := range []int{-1, 0, 1, 17, 18, 19, 28} {
-			if k := b + dlt; k >= 0 && k < len(raw) {
-				cuts = append(cuts, k)
-			}
-		}
-	}
-	sort.Ints(cuts)
-	for _, k := range cuts {
-		var first c10Obs
-		for i, rd := range c10Rds {
-			o := c10RunCase(st, raw[:k], rd, 4096, i, &first)
-			if o.skip {
-				continue
-			}
-			r.eval(fmt.Sprintf("bam-big/t/%d/%d", k, rd), true)
-			r.hist("trunc.bam-big")
-			if sig, what := c10JudgeTrunc(st, k, rd, o); sig != "" {
-				r.fail(sig, fmt.Sprintf("bam-big rd=%d: %s", rd, what), c10Input{Kind: "trunc", Layer: "bam", Name: "bam-big", Stream: hexRaw, Cut: k, Rd: rd})
-			}
-		}
-	}
+	ncuts := c10BoundaryCuts(c, st)
 	nsub := 0
 	mut := append([]byte{}, raw...)
 	for _, m := range st.members {
@@ -1460,7 +1619,7 @@ func c10BigBam(c *ctx) {
 		}
 	}
 	r.note("bam-big: %d bytes, %d members, %d records: %d cuts at and around member boundaries, %d substitutions of header/trailer bytes (oracle only)",
-		len(raw), len(st.members), len(st.recs)-1, len(cuts), nsub)
+		len(raw), len(st.members), len(st.recs)-1, ncuts, nsub)
 }
 
 func c10Replay(c *ctx) {
